@@ -691,6 +691,12 @@ def c18_check_case(case, envs):
             # "the widths, heights and skips the option parser accepts", so this is no case
             rec["cls"] = "options_rejected"
             return [], recs, None
+        if not run.success and run.outcome.detail == "SystemExit(2)" and "usage:" in run.outcome.stderr \
+                and (env.inplace or env.in_kind == "fifo" or env.spell or env.late_opts or env.names):
+            # the argument parser itself refuses this argument shape (e.g. "input and output
+            # must differ"): not a combination the tool accepts, so nothing to compare
+            rec["cls"] = "shape_rejected"
+            continue
         if not run.success:
             problems.append(("not_success", ei, run.outcome.detail))
             continue
